@@ -285,7 +285,7 @@ func runTF(t *testing.T, cs Case, trace bool, prop string) *Outcome {
 				}
 			})
 		}
-		if r := s.Settle(3000000); r != simrt.Quiescent {
+		if r := s.Settle(1000000); r != simrt.Quiescent {
 			// the external actors are long done (their sleeps are bounded by seconds) and no fault is pending: a
 			// system that is still busy after millions of steps / hours of virtual time does not converge
 			if ps := s.Panics(); len(ps) > 0 {
